@@ -6,6 +6,15 @@ props=[json.loads(l) for l in open('/verif/properties.jsonl')]
 HOOK_COMMITS=["dc2fd90"]
 # id -> (technique, level text, level note)
 DONE={
+ "C14":("runtime monitoring: independent end-device model of LinkADRReq channel-mask semantics applied to the payloads the real planner generates, over seeded network histories (with interleaved observations) and enumerated / structured device sets",
+        "held on the executions observed; all 2^n device subsets for plans of <= 12 channels (<= 16 thorough), sampled + structured subsets for the 72/96-channel plans",
+        "trusted: device model in harness/spec/linkadr.go"),
+ "C15":("runtime monitoring: lock-step sequential model of the channel plan compared after every operation of seeded histories with hostile arguments; encode->decode experiments pushing every band output through the MAC-layer encoders",
+        "held on the executions observed; known findings: ISM2400 frequencies are not encodable by 5 MAC structures",
+        "trusted: the sequential channel-plan model in mon/c15.go; regional defaults from harness/spec/regional.go"),
+ "C18":("runtime monitoring: inverse / size / trailing-bytes / stream oracles over encode-first (bit-width table) and decode-first (all first bytes) generators for every application-layer payload type; AES reference derivation for multicast keys",
+        "held on the executions observed; known finding: DevVersionReq cannot be followed by another command (pinned by the repository's own test)",
+        "trusted: bit-width table of TS003-TS006 in mon/c18.go; crypto/aes"),
  "C05":("runtime monitoring: recorded sender/receiver call histories judged by a content-equality oracle and a tamper oracle (independent spec MIC over the received bytes with the receiver's parameters), incl. a receiver re-using its PHYPayload value",
         "held on the executions observed (thorough: every bit of every generated frame is flipped); known finding: MHDR RFU bits",
         "trusted: crypto/aes, harness CMAC/keystream; key usage per LoRaWAN 1.1"),
